@@ -77,6 +77,11 @@ def cases(tier, seed, prop):
         if rnd.random() < (.5 if prop == 'C07' else .1): ab = gens.mutate(rnd, ab, gens.ABBR_ALPHA)
         out.append({'s': ab, 'c': CFGS[rnd.randrange(len(CFGS))] if rnd.random() < .4 else rand_cfg(rnd), 'g': 'abbr'})
     if prop == 'C07':
+        # BEM names resolved through a context element whose class is missing / empty / None
+        for ab in ('.-e', 'p.-x._m', 'ul>li.-item', '.-a>.-b', 'div._m'):
+            for v in (None, '', 'blk', 'a b'):
+                out.append({'s': ab, 'c': {'options': {'bem.enabled': True}, 'context': {'name': 'div', 'attributes': {'class': v}}}, 'g': 'bem-context'})
+                out.append({'s': ab, 'c': {'options': {'bem.enabled': True}, 'context': {'name': 'div', 'attributes': {}}}, 'g': 'bem-context'})
         # wrap text that looks like a link, elements that take an href (markup.href on: judged by the oracle on the implementation only)
         for ab in ('a', 'a["x"]', "a['y' href]", 'a[title="t"]', 'p>a', 'a.b', 'ul>li*>a', 'a[href]', 'a["x" "y"]', 'a[href=""]', 'div>a["z"]{t}'):
             for tx in ('http://emmet.io', 'info@emmet.io', 'www.emmet.io', ['http://a.b', 'c@d.e'], 'plain text'):
